@@ -324,6 +324,40 @@ pub fn run_wasm(case: &str, wasm: &[u8], gc: bool, stats: &mut Stats) {
             fails.push((format!("C19:emit-map-count-{}", what), format!("{} {} ids asked, {} appear in the output", seen.len(), what, t.len())));
         }
     }
+    // the same ids followed by what the entities *are* (independent of the name section, which is
+    // itself written through the emit-time map): the entity at the reported index must be the
+    // input entity with that id (ids are input indices)
+    let mut diff = |what: &str, id: usize, idx: u32, same: Option<bool>| match same {
+        Some(true) => {}
+        Some(false) => fails.push((format!("C19:emit-map-points-at-a-different-{}", what), format!("{} id {} reported at index {}, but the {} emitted there is a different one", what, id, idx, what))),
+        None => fails.push((format!("C19:emit-map-index-out-of-range-{}", what), format!("{} id {} reported at index {}, the emitted binary has no such {}", what, id, idx, what))),
+    };
+    for (id, idx) in es.datas.iter() {
+        let same = b.datas.get(*idx as usize).map(|d| a.datas.get(*id).map(|x| x.bytes == d.bytes && std::mem::discriminant(&x.mode) == std::mem::discriminant(&d.mode)).unwrap_or(true));
+        diff("data", *id, *idx, same);
+    }
+    for (id, idx) in es.elems.iter() {
+        let len = |e: &decode::AElem| match &e.items { decode::ElemItems::Funcs(f) => f.len(), decode::ElemItems::Exprs(_, x) => x.len() };
+        let same = b.elems.get(*idx as usize).map(|d| a.elems.get(*id).map(|x| len(x) == len(d) && std::mem::discriminant(&x.mode) == std::mem::discriminant(&d.mode)).unwrap_or(true));
+        diff("element", *id, *idx, same);
+    }
+    for (id, idx) in es.globals.iter() {
+        let same = b.global_ty(*idx).map(|d| a.global_ty(*id as u32).map(|x| x == d).unwrap_or(true));
+        diff("global", *id, *idx, if *idx < b.count(Space::Global) { same } else { None });
+    }
+    for (id, idx) in es.tables.iter() {
+        let same = b.table_ty(*idx).map(|d| a.table_ty(*id as u32).map(|x| x == d).unwrap_or(true));
+        diff("table", *id, *idx, if *idx < b.count(Space::Table) { same } else { None });
+    }
+    for (id, idx) in es.mems.iter() {
+        let same = b.mem_ty(*idx).map(|d| a.mem_ty(*id as u32).map(|x| x == d).unwrap_or(true));
+        diff("memory", *id, *idx, if *idx < b.count(Space::Mem) { same } else { None });
+    }
+    for (id, idx) in es.funcs.iter() {
+        let sig = |m: &AMod, f: u32| m.func_type(f).and_then(|t| m.types.get(t as usize).cloned());
+        let same = if *idx < b.count(Space::Func) { Some(sig(&a, *id as u32).map(|x| Some(x) == sig(&b, *idx)).unwrap_or(true)) } else { None };
+        diff("function", *id, *idx, same);
+    }
     if fails.is_empty() {
         out::oracle(case, true, "", "");
     } else {
